@@ -121,12 +121,17 @@ impl SvgElement {
 //@ - r == self.attrs@.dom().contains(key@)
 //@end
 //@item src/element.rs :: impl SvgElement :: fn has_foreign_position
-//@ strlit "rect" "use" "image" "svg" "foreignObject" "circle" "ellipse" "line" "cx" "cy" "x1" "y1" "x2" "y2" "x" "y"
+//@ strlit "rect" "box" "point" "use" "reuse" "image" "svg" "foreignObject" "circle" "ellipse" "line" "cx" "cy" "x1" "y1" "x2" "y2" "x" "y" "width" "height"
 //@ replace[R-any] <<<foreign.iter().any(|a| self.has_attr(a))>>> => <<<any_attr(self, foreign)>>>
 //@ body-start
 //@ | proof { reveal_with_fuel(has_any, 8); }
 //@ ensures
 //@ - r == foreign_pos(self.name@, self.attrs@)     @@C10.pending.foreign_spec
+//@end
+//@item src/element.rs :: impl SvgElement :: fn is_connector
+//@ strlit "start" "end" "line" "polyline"
+//@ ensures
+//@ - r == connector_pending(self.name@, self.attrs@)     @@C10.pending.connector_spec
 //@end
 //@item src/element.rs :: impl SvgElement :: fn has_pending_offset
 //@ strlit "text" "tspan" "feOffset" "dx" "dy"
